@@ -10,9 +10,22 @@ import BytomModel.Model.Ledger
 namespace BytomModel.NodeLedger
 open BytomModel.Node BytomModel.Ledger
 
+/-- what `ValidateBlock` looks at beyond the block's position: timestamp (ms after genesis),
+    the validator order whose key signed the header (none = garbage signature), whether the
+    timestamp is beyond now + MaxTimeOffset, and whether a context-free rule the model does
+    not compute (merkle root, transaction validity, coinbase shape/amounts) is broken -/
+structure Meta where
+  ts : Nat
+  signer : Option Nat
+  future : Bool
+  bad : Bool
+deriving Repr, Inhabited
+
 structure State where
   node : Node.State
   params : Ledger.Params
+  interval : Nat := 1000
+  metas : List (Nat × Meta) := []
   blockTxs : List (Nat × List Tx)     -- transactions of every defined block (coinbase first)
   utxo : View                         -- persisted entries
   contracts : CMap
@@ -68,9 +81,38 @@ def State.settle (pre : State) (post : Node.State) (r : Res) : State × Res :=
       | none => ({ pre with node := post }, r)
     | _, _ => ({ pre with node := post }, r)
 
+def State.metaOf (s : State) (b : Nat) : Option Meta := (s.metas.find? (fun p => p.1 == b)).map (·.2)
+
+/-- `ValidateBlockHeader` (height, parent, time window, proposer signature for the slot) and
+    the context-free flags, for a block whose parent is stored. Blocks without recorded
+    meta data (streams that only deliver valid blocks) are valid. -/
+def State.validBlock (s : State) (b : Header) : Bool :=
+  match s.metaOf b.id, s.node.header b.parent with
+  | some m, some p =>
+    let pts := match s.metaOf p.id with | some pm => pm.ts | none => 0
+    if b.height != p.height + 1 then false
+    else if m.ts < pts + s.interval then false
+    else if m.future then false
+    else
+      -- verifyBlockSignature: validator scheduled for the slot, epoch start = checkpoint ts + interval
+      let ckTs := match s.node.prevCheckpointHash s.node.fuel b.parent with
+        | some ch => (match s.metaOf ch with | some cm => cm.ts | none => 0)
+        | none => 0
+      let start := ckTs + s.interval
+      let order := ((m.ts - start) / s.interval) % s.node.cfg.nVal
+      if m.signer != some order then false
+      else !m.bad
+  | _, _ => true
+
 def State.processBlock (s : State) (b : Header) : State × Res :=
-  let (n', r) := s.node.processBlock b
-  s.settle n' r
+  let exists_ := (s.node.header b.id).isSome || s.node.isOrphan b.id
+  let bestH := match s.node.header s.node.best with | some h => h.height | none => 0
+  if !(exists_ && bestH ≥ b.height) && (s.node.header b.parent).isSome && !s.validBlock b then
+    -- saveBlock: ValidateBlock fails before anything is touched
+    (s, .err)
+  else
+    let (n', r) := s.node.processBlock b
+    s.settle n' r
 
 def State.authVerification (s : State) (order src tgt : Nat) (sigOk : Bool) : State × Res :=
   let (n', r) := s.node.authVerification order src tgt sigOk
